@@ -551,6 +551,12 @@ def _is_b(line):
     return line.startswith(("seq ", "seqf "))
 
 
+def _nocalls(out):
+    """a `seq` observation without its trailing `| calls N` (which may be all there is when the line has no operation)"""
+    import re
+    return re.sub(r"\s*\|\s*calls \d+\s*$", "", out).strip()
+
+
 def area_of(line):
     return "bits" if _is_b(line) else _w2["area_of"](line)
 
@@ -563,7 +569,7 @@ def _bcounts(run, lines):
     for i in range(len(lines)):
         r = res.get("b%d" % i, "")
         if "| calls " in r:
-            out.append((int(r.rsplit("| calls ", 1)[1]), r.rsplit(" | calls", 1)[0].strip()))
+            out.append((int(r.rsplit("| calls ", 1)[1]), _nocalls(r)))
         else:
             out.append((None, r))
     return out
@@ -597,14 +603,14 @@ def same(line, impl, model):
     if not _is_b(line):
         return _w2["same"](line, impl, model)
     if line.startswith("seqf "):
-        return impl.rsplit(" | calls", 1)[0].strip() == model.strip()
+        return _nocalls(impl) == _nocalls(model)
     return impl == model
 
 
 def classify(line, impl):
     if not _is_b(line):
         return _w2["classify"](line, impl)
-    t = impl.rsplit(" | calls", 1)[0].split()
+    t = _nocalls(impl).split()
     last = t[-1] if t else "empty"
     return "bits-" + (last if last.startswith("E:") else "completed")
 
@@ -621,7 +627,7 @@ def _boracle(run, pairs):
     base = {}
     for line, impl in pairs:
         if line.startswith("seq ") and "| calls " in impl:
-            base[line.split(" ", 1)[1]] = (int(impl.rsplit("| calls ", 1)[1]), impl.rsplit(" | calls", 1)[0].strip())
+            base[line.split(" ", 1)[1]] = (int(impl.rsplit("| calls ", 1)[1]), _nocalls(impl))
     need = [l.split(" ", 3)[3] for l, _ in pairs if l.startswith("seqf ") and l.split(" ", 3)[3] not in base]
     need = list(dict.fromkeys(need))
     for a, nr in zip(need, _bcounts(run, ["seq " + a for a in need]) if need else []):
@@ -636,7 +642,7 @@ def _boracle(run, pairs):
             t = line.split(" ", 3)
             k, kind, a = int(t[1]), t[2], t[3]
             n, r0 = base.get(a, (None, "missing"))
-            got = impl.rsplit(" | calls", 1)[0].strip()
+            got = _nocalls(impl)
             if n is None:
                 out.append((False, "no fault-free observation: %s" % str(r0)[:100]))
             elif k < n:
